@@ -7,7 +7,9 @@ CONSTANTS
   FileCap = 2
   MaxSnaps = 1
   MaxPins = 0
+  MaxFiles = 7
   KeepExtra = FALSE
+  Ops = {0, 1}
   Bug_RangeMin = FALSE
   Bug_NoBoundary = FALSE
   Bug_DropTombNoBase = FALSE
@@ -18,4 +20,6 @@ CONSTANTS
   Bug_ImmDropEarly = FALSE
 INVARIANTS ReadCorrect WellFormed NothingLiveDeleted SeqSane
 PROPERTIES Invisible NoLeakAfterPass
+CONSTRAINT MCBound
+VIEW MCView
 CHECK_DEADLOCK FALSE
